@@ -1,4 +1,5 @@
 import PlushModel
+import PlushModel.Gen.EvalDispatch
 import PlushProofs.Lib.ParserWF
 import PlushProofs.Lib.EvalCrashSites
 /-!
@@ -118,5 +119,99 @@ theorem C04_evaluator_crash_sites (fuel : Nat) : AllCO fuel := allCO fuel
 theorem C04_render_crash_sites (fuel : Nat) (src : Bytes) (ctx : Nat) (s : ES) (site : String)
     (h : (renderIn fuel src ctx s).1 = .fatal (.crash site)) : site ∈ nilChildSites :=
   (allCO fuel).renderIn src ctx s site h
+
+/-! ### The evaluator's dispatch on node types, tied to the source (`Gen/EvalDispatch.lean`, re-translated on every run) -/
+
+/-- which arm of Go's `evalExpression` an AST node of the model takes: its Go node type and what that arm does -/
+def Expr.goArm : Expr → String × String
+  | .html .. => ("*ast.HTMLLiteral", "return:template.HTML(…)")
+  | .str .. => ("*ast.StringLiteral", "return:s.Value")
+  | .int .. => ("*ast.IntegerLiteral", "return:s.Value")
+  | .float .. => ("*ast.FloatLiteral", "return:s.Value")
+  | .inf .. => ("*ast.InfixExpression", "evalInfixExpression")
+  | .hash .. => ("*ast.HashLiteral", "evalHashLiteral")
+  | .idx .. => ("*ast.IndexExpression", "evalIndexExpression")
+  | .call .. => ("*ast.CallExpression", "evalCallExpression")
+  | .ident .. => ("*ast.Identifier", "evalIdentifier")
+  | .bool .. => ("*ast.Boolean", "return:s.Value")
+  | .arr .. => ("*ast.ArrayLiteral", "evalArrayLiteral")
+  | .for_ .. => ("*ast.ForExpression", "evalForExpression")
+  | .if_ .. => ("*ast.IfExpression", "evalIfExpression")
+  | .pre .. => ("*ast.PrefixExpression", "evalPrefixExpression")
+  | .fn .. => ("*ast.FunctionLiteral", "evalFunctionLiteral")
+  | .asg .. => ("*ast.AssignExpression", "evalAssignExpression")
+  | .cont .. => ("*ast.ContinueExpression", "return:continueObject{…}")
+  | .brk .. => ("*ast.BreakExpression", "return:breakObject{…}")
+
+def flatArms (arms : List (List String × String)) : List (String × String) :=
+  arms.flatMap fun (tys, a) => tys.map fun t => (t, a)
+
+/-- THE MODEL'S NODE KINDS AND ROUTES ARE EXACTLY THE ARMS OF THE TRANSLATED SWITCH: every arm of `evalExpression`
+    in /repo (re-translated on every run) is the arm of some model node kind or the `nil` arm, and every model
+    node kind has its arm; a node type without an arm is an error in Go. -/
+theorem C04_eval_dispatch_table :
+    flatArms Gen.evalExpressionArms =
+      [("*ast.HTMLLiteral", "return:template.HTML(…)"), ("*ast.StringLiteral", "return:s.Value"),
+       ("*ast.IntegerLiteral", "return:s.Value"), ("*ast.FloatLiteral", "return:s.Value"),
+       ("*ast.InfixExpression", "evalInfixExpression"), ("*ast.HashLiteral", "evalHashLiteral"),
+       ("*ast.IndexExpression", "evalIndexExpression"), ("*ast.CallExpression", "evalCallExpression"),
+       ("*ast.Identifier", "evalIdentifier"), ("*ast.Boolean", "return:s.Value"),
+       ("*ast.ArrayLiteral", "evalArrayLiteral"), ("*ast.ForExpression", "evalForExpression"),
+       ("*ast.IfExpression", "evalIfExpression"), ("*ast.PrefixExpression", "evalPrefixExpression"),
+       ("*ast.FunctionLiteral", "evalFunctionLiteral"), ("*ast.AssignExpression", "evalAssignExpression"),
+       ("*ast.ContinueExpression", "return:continueObject{…}"), ("*ast.BreakExpression", "return:breakObject{…}"),
+       ("nil", "return:nil")] ∧
+    Gen.evalExpressionUnknownIsError = true := by
+  constructor <;> rfl
+
+theorem C04_every_node_kind_has_its_arm (e : Expr) : e.goArm ∈ flatArms Gen.evalExpressionArms := by
+  rw [C04_eval_dispatch_table.1]
+  cases e <;> simp [Expr.goArm]
+
+/-- … and the model takes that route: one equation per arm of the switch -/
+theorem C04_model_follows_dispatch (f : Nat) :
+    (evalExpr (f + 1) none = pure .nil) ∧
+    (∀ t v, evalExpr (f + 1) (some (.html t v)) = pure (.html v)) ∧
+    (∀ t v, evalExpr (f + 1) (some (.str t v)) = pure (.str v)) ∧
+    (∀ t v, evalExpr (f + 1) (some (.int t v)) = pure (.int v)) ∧
+    (∀ t v, evalExpr (f + 1) (some (.bool t v)) = pure (.bool v)) ∧
+    (∀ t op l r, evalExpr (f + 1) (some (.inf t op l r)) = evalInfix f op l r) ∧
+    (∀ t l i v c, evalExpr (f + 1) (some (.idx t l i v c)) = evalIndex f l i v c) ∧
+    (∀ t ce ch fn args blk, evalExpr (f + 1) (some (.call t ce ch fn args blk)) = evalCall f ce ch fn args blk) ∧
+    (∀ i, evalExpr (f + 1) (some (.ident i)) = evalIdent f i) ∧
+    (∀ t k v it bl, evalExpr (f + 1) (some (.for_ t k v it bl)) = evalFor f k v it bl) ∧
+    (∀ t c bl el es, evalExpr (f + 1) (some (.if_ t c bl el es)) = evalIf f c bl el es) ∧
+    (∀ t ps bl, evalExpr (f + 1) (some (.fn t ps bl)) = pure (.userfn (ps.getD []) bl)) ∧
+    (∀ t, evalExpr (f + 1) (some (.cont t)) = pure (.cont [])) ∧
+    (∀ t, evalExpr (f + 1) (some (.brk t)) = pure (.brk [])) := by
+  refine ⟨?_, ?_, ?_, ?_, ?_, ?_, ?_, ?_, ?_, ?_, ?_, ?_, ?_, ?_⟩ <;> intros <;> simp [evalExpr]
+
+/-- the statement switch: three arms, anything else is an error -/
+theorem C04_stmt_dispatch_table :
+    flatArms Gen.evalStatementArms =
+      [("*ast.ExpressionStatement", "block:evalExpression"), ("*ast.ReturnStatement", "evalReturnStatement"),
+       ("*ast.LetStatement", "evalLetStatement")] ∧ Gen.evalStatementUnknownIsError = true := by
+  constructor <;> rfl
+
+
+/-- the reflective dispatch of loops and index operations, as translated: maps and slices/arrays have arms, every
+    other kind goes to the default arm (an error in the model: `could-not-iterate`, `could-not-index`); a `for`
+    dereferences a pointer operand first (the model: `for` over a pointer to a slice is outside the fragment, over
+    a pointer to a struct an error), index read and index write do NOT (the model: an index on a pointer is an
+    error) -/
+theorem C04_kind_dispatch :
+    Gen.evalForExpressionKinds = [["reflect.Map"], ["reflect.Slice", "reflect.Array"]] ∧
+    Gen.evalForExpressionHasDefault = true ∧ Gen.evalForExpressionDerefsPointer = true ∧
+    Gen.evalAccessIndexKinds = [["reflect.Map"], ["reflect.Array", "reflect.Slice"]] ∧
+    Gen.evalAccessIndexHasDefault = true ∧ Gen.evalAccessIndexDerefsPointer = false ∧
+    Gen.evalUpdateIndexKinds = [["reflect.Map"], ["reflect.Array", "reflect.Slice"]] ∧
+    Gen.evalUpdateIndexHasDefault = true ∧ Gen.evalUpdateIndexDerefsPointer = false := by
+  refine ⟨rfl, rfl, rfl, rfl, rfl, rfl, rfl, rfl, rfl⟩
+
+/-- … and the model agrees: an index read or write on a pointer is an error, whatever it points to -/
+theorem C04_index_on_pointer_is_error (t : String) (p : Option Val) (i v : Val) (h : Bool) (s : ES) :
+    accessIndex (.ptr t p) i h s = (.err { kind := "could-not-index" }, s) ∧
+    updateIndex (.ptr t p) i v s = (.err { kind := "could-not-index" }, s) := by
+  constructor <;> rfl
 
 end Plush
